@@ -42,7 +42,7 @@ theorem ident_legal (S : List Str) (T : Cfg)
     (himg : ∀ img ∈ S.map (baseL T), ∃ c ∈ img, okLower c = false)
     (n : Str) (ha : Ascii n) (hi : isIdent n = true) : Legal T S n := by
   have hch := ident_chars n ha hi
-  refine Or.inl ⟨?_, ?_, ?_, ?_⟩
+  refine Or.inl ⟨?_, ?_, ?_, ?_, ?_⟩
   · intro p hp hmem
     have := hch _ hmem
     rw [htab p hp] at this
@@ -66,5 +66,10 @@ theorem ident_legal (S : List Str) (T : Cfg)
     have := hch c hc
     rw [hbad] at this
     cases this
+  · apply notOpImage_of_no_paren
+    intro hmem
+    have := hch _ hmem
+    revert this
+    decide
 
 end Ford.Names
